@@ -60,6 +60,9 @@ var (
 
 type LT struct{ N int }
 
+// a type whose name starts with a letter that takes more than one byte
+type Ärger struct{ N int }
+
 type MyInt int
 
 type LI interface{ Foo() int }
@@ -348,6 +351,7 @@ func Corpus(o Options) []Case {
 		sig("anonymous interface embedding local and foreign interfaces", "M() interface{ LClock; dep.I }")
 		sig("named foreign type followed by unnamed-typed parameters and results", "M(t dep3.T, names []string, n int, m map[string]bool) (dep3.T, []byte, bool)")
 		sig("param same name as type", "M(LT LT) LT")
+		sig("unnamed parameters and results of a type with a non-ASCII initial", "M(Ärger, *Ärger, []Ärger) (Ärger, error)")
 		sig("result func", "M() func(int, ...string) error")
 		sig("many methods", "A(a int) int\n\tB(b string) string\n\tC(c bool) bool\n\tD()")
 		{
